@@ -31,6 +31,7 @@ INFO = {
 }
 
 MANIFEST = {
+    "technique": 'bounded symbolic execution of the real scanner on symbolic input per enumerated (text, form, KEYWORD) program (CrossHair engine + z3, validated regex model); inline==declared by native differential',
     "level_text": "Bounded symbolic execution of the real scanner on symbolic ASCII input for each enumerated (text, form, "
     "KEYWORD) program, against a 30-line reference scanner; a native differential for 'inline == declared'.",
     "level_note": "Trusted: CrossHair proxies, z3, regex model (validated), reference scanner.  Four classes of programs are "
